@@ -192,7 +192,6 @@ func c05Sched(c *core.Ctx) {
 		ref.Out = append(ref.Out, so.Out[0])
 		ref.States = append(ref.States, so.States[0])
 	}
-	nStates := len(p0.Desc.States)
 	orders := map[string]bool{}
 	for _, procs := range []int{1, 2, 3, 16} {
 		for ds := 0; ds < 4; ds++ {
@@ -214,75 +213,23 @@ func c05Sched(c *core.Ctx) {
 			if d, bad := diffBits2(ref.States, out.States); bad {
 				c.Violate("schedule-dependent-state", model, fmt.Sprintf("GOMAXPROCS=%d delay seed %d: final states differ from the sequential cell-by-cell result at %s", procs, ds, d))
 			}
-			// ---- trace checks
-			cellOf := map[int64]int{}
+			// ---- the request log only provides the interleaving identity (order in which the cells' rows are
+			// first requested) and the delay points.  How the wrapper distributes cells over goroutines and how
+			// it addresses the arrays is an implementation choice the property does not fix (a worker pool is as
+			// good as a goroutine per cell), so nothing about goroutine identity or request counts is asserted.
 			var arrival []int
 			seenCell := map[int]bool{}
-			stateReq := map[int]int{}
-			inputReq := map[int]int{}
-			outReq := map[[2]int]int{}
 			for _, e := range lg.events {
 				if e.gid == mainG {
-					continue // set-up on the calling goroutine
+					continue
 				}
-				cell := -1
-				switch e.array {
-				case "states", "outputs":
-					if len(e.loc) > 0 {
-						cell = e.loc[0]
-					}
-				case "inputs":
-					if e.method != "Slice" {
-						c.Violate("inputs-write-request", model, fmt.Sprintf("goroutine issued %s on the inputs array", e.method))
-					}
-					if len(e.loc) > 0 {
-						inputReq[int(e.gid)]++
-						// the block must be cell %% B of the goroutine's cell: checked below once the cell is known
-					}
+				if e.array == "inputs" && e.method != "Slice" && e.method != "Get" && e.method != "Unroll" {
+					c.Violate("inputs-write-request", model, fmt.Sprintf("Run issued %s on the inputs array", e.method))
 				}
-				if cell >= 0 {
-					if prev, ok := cellOf[e.gid]; ok && prev != cell {
-						c.Violate("goroutine-touches-two-cells", model, fmt.Sprintf("one cell goroutine requested rows of cells %d and %d (%s.%s)", prev, cell, e.array, e.method))
-					}
-					cellOf[e.gid] = cell
-					if !seenCell[cell] {
+				if (e.array == "states" || e.array == "outputs") && len(e.loc) > 0 {
+					if cell := e.loc[0]; !seenCell[cell] {
 						seenCell[cell] = true
 						arrival = append(arrival, cell)
-					}
-				}
-				if e.array == "states" && e.method == "Slice" {
-					stateReq[cell]++
-				}
-				if e.array == "outputs" && (e.method == "Slice" || e.method == "ApplySlice") && len(e.loc) > 1 {
-					outReq[[2]int{cell, e.loc[1]}]++
-				}
-			}
-			// distinct goroutines for distinct cells
-			byCell := map[int]int64{}
-			for g, cell := range cellOf {
-				if og, ok := byCell[cell]; ok && og != g {
-					c.Violate("two-goroutines-one-cell", model, fmt.Sprintf("cell %d was served by two goroutines", cell))
-				}
-				byCell[cell] = g
-			}
-			if len(p.Desc.Outputs) > 0 && len(byCell) != N {
-				c.Violate("cells-not-all-run", model, fmt.Sprintf("%d of %d cells requested their rows", len(byCell), N))
-			}
-			for i := 0; i < N; i++ {
-				if nStates > 0 && stateReq[i] != 1 {
-					c.Violate("state-row-request-count", model, fmt.Sprintf("state row of cell %d requested %d times", i, stateReq[i]))
-				}
-				for k := range p.Desc.Outputs {
-					if outReq[[2]int{i, k}] != 1 {
-						c.Violate("output-series-request-count", model, fmt.Sprintf("output series %d of cell %d requested %d times", k, i, outReq[[2]int{i, k}]))
-					}
-				}
-			}
-			// inputs: the block requested by the goroutine of cell i must be i mod B
-			for _, e := range lg.events {
-				if e.array == "inputs" && e.method == "Slice" && e.gid != mainG && len(e.loc) > 0 {
-					if cell, ok := cellOf[e.gid]; ok && e.loc[0] != cell%B {
-						c.Violate("wrong-input-block", model, fmt.Sprintf("cell %d requested input block %d, expected %d", cell, e.loc[0], cell%B))
 					}
 				}
 			}
